@@ -15,7 +15,7 @@ import (
 	"github.com/google/pprof/verif/internal/parse"
 )
 
-var hostile = []string{`q"r`, `b\`, "n\nl", `<h>`, `a&b`, `{x}`, `p|q`, `s;t`, `\l`, `\N`, `é☃`, `end\"`, `x\\"y`, `"`, `\`, `a" b="c`, `]`, `[x]`, `--`, `->`, "cr\rlf", `<script>alert(1)</script>`, `"><img src=x onerror=alert(1)>`, `</script>`, `'quo'`, `a\nb`, `%s`, "tab\there", `(1) evil`, `fn=(7) x`, "two\n\nlines"}
+var hostile = []string{`q"r`, `b\`, "n\nl", `<h>`, `a&b`, `{x}`, `p|q`, `s;t`, `\l`, `\N`, `é☃`, `end\"`, `x\\"y`, `"`, `\`, `a" b="c`, `]`, `[x]`, `--`, `->`, "cr\rlf", `<script>alert(1)</script>`, `"><img src=x onerror=alert(1)>`, `</script>`, `'quo'`, `a\nb`, `%s`, "tab\there", `(1) evil`, `fn=(7) x`, "two\n\nlines", `95%`, `50%"`, `%d%v`, `a%`}
 
 var sites = []string{"fn", "sys", "file", "mapfile", "buildid", "comment", "labelkey", "labelval", "numunit", "numkey", "stype", "sunit", "docurl", "mapfile2"}
 
@@ -191,8 +191,7 @@ func runDOT(c *harness.Ctx) harness.Result {
 			}
 		}
 		if !found {
-			// the entry may have been trimmed away or not be part of any shown stack: only a
-			// violation if some shown attribute contains a damaged form of the string
+			// the entry may have been trimmed away or not be part of any shown stack
 			c.Stat("dot_string_not_shown", 1)
 		} else {
 			c.Stat("dot_string_recovered", 1)
@@ -389,7 +388,7 @@ func init() {
 	harness.Register(&harness.Check{
 		ID:    "C18",
 		Level: "exploration",
-		Rule: "every profile-derived string site (function, system name, file, mapping file of first and second binary, build id, comment, label key, label value, numeric-label unit and key, sample type and unit, doc URL) x 31 hostile strings (quotes, backslashes incl. trailing, newlines, CR, angle brackets, braces, pipes, semicolons, DOT escapes \\l \\N, brackets, arrows, non-ASCII, callgrind look-alikes, script tags), enumerated exhaustively as (site, string) pairs, x random {granularity, call_tree, trim, tags on/off, tagroot}; part dot: the output must parse with the independent Graphviz grammar (string lexing per scan.l) and every edge endpoint must be declared; part callgrind: header, every line matches a callgrind line form, (n) references defined before use and never redefined, positions decode (absolute or relative to the previous position) to addresses of the profile, self costs sum to the samples' total; part html: 7 markup tokens x sites; /top /flamegraph /peek /source /disasm / pages never contain the token verbatim. non-trivial = every case; distinct = (site, string, options)",
+		Rule: "every profile-derived string site (function, system name, file, mapping file of first and second binary, build id, comment, label key, label value, numeric-label unit and key, sample type and unit, doc URL) x 35 hostile strings (quotes, backslashes incl. trailing, newlines, CR, angle brackets, braces, pipes, semicolons, DOT escapes \\l \\N, brackets, arrows, non-ASCII, callgrind look-alikes, script tags), enumerated exhaustively as (site, string) pairs, x random {granularity, call_tree, trim, tags on/off, tagroot}; part dot: the output must parse with the independent Graphviz grammar (string lexing per scan.l) and every edge endpoint must be declared; part callgrind: header, every line matches a callgrind line form, (n) references defined before use and never redefined, positions decode (absolute or relative to the previous position) to addresses of the profile, self costs sum to the samples' total; part html: 7 markup tokens x sites; /top /flamegraph /peek /source /disasm / pages never contain the token verbatim. non-trivial = every case; distinct = (site, string, options)",
 		Assumptions: []string{"graphviz is not installed: validity is decided by the harness's own DOT grammar", "call targets in callgrind are decoded under pprof's own relative scheme only for self-cost lines"},
 		Parts: []harness.Part{
 			{Name: "dot", Quick: 3 * n, Thor: 120 * n, Run: runDOT},
